@@ -1,7 +1,7 @@
 (* C12 - association lists with keys unique up to the key equality: the finite map the hashmap implements.
    Everything is stated through [al_find] (lookup returning the stored binding), so that specifications are
    functional equations. *)
-From Coq Require Import ZArith List Bool Lia Arith.
+From Coq Require Import ZArith List Bool Lia Arith Permutation.
 From C12 Require Import Gen Model.
 Import ListNotations.
 
@@ -234,4 +234,105 @@ Section AL.
     apply keys_nodup_cons in ND. destruct ND as [N1 N2]. apply keys_nodup_cons. split; [|auto].
     intros b Hb. apply in_map_iff in Hb. destruct Hb as (b' & <- & Hb'). cbn. apply N1. assumption.
   Qed.
+
+  (* ---- keys that are not == to themselves (NaN): they match nothing *)
+  Lemma irrefl_matches_nothing : forall k x, keqb k k = false -> keqb k x = false.
+  Proof.
+    intros k x H. destruct (keqb k x) eqn:E; [|reflexivity].
+    assert (keqb k k = true) by (apply (keqb_trans k x k); [assumption|rewrite keqb_sym; assumption]). congruence.
+  Qed.
+
+  (* ---- permutations: the finite map is the multiset of its bindings *)
+  Lemma keys_nodup_perm : forall a b, Permutation a b -> keys_nodup a -> keys_nodup b.
+  Proof.
+    induction 1; intros ND; auto.
+    - apply keys_nodup_cons in ND. destruct ND as [N1 N2]. apply keys_nodup_cons. split; [|auto].
+      intros y Hy. apply N1. eapply Permutation_in; [apply Permutation_sym; eassumption|assumption].
+    - apply keys_nodup_cons in ND. destruct ND as [N1 N2]. apply keys_nodup_cons in N2. destruct N2 as [N2 N3].
+      apply keys_nodup_cons. split.
+      + intros z [<-|Hz]; [rewrite keqb_sym; apply N1; left; reflexivity|apply N2; assumption].
+      + apply keys_nodup_cons. split; [intros z Hz; apply N1; right; assumption|assumption].
+  Qed.
+
+  Lemma al_find_perm : forall a b k, keys_nodup a -> Permutation a b -> al_find k a = al_find k b.
+  Proof.
+    intros a b k ND P. pose proof (keys_nodup_perm a b P ND) as NDb.
+    destruct (al_find k a) as [kv|] eqn:E.
+    - apply al_find_some in E. destruct E as [Hin Q]. symmetry. apply al_find_in; [assumption| |assumption].
+      eapply Permutation_in; eauto.
+    - symmetry. apply al_find_none. intros kv Hin. pose proof (proj1 (al_find_none k a) E) as X. apply X.
+      eapply Permutation_in; [apply Permutation_sym; eassumption|assumption].
+  Qed.
+
+  Lemma al_find_split : forall k al kv, al_find k al = Some kv ->
+    exists a1 a2, al = a1 ++ kv :: a2 /\ (forall x, In x a1 -> keqb k (fst x) = false) /\ keqb k (fst kv) = true.
+  Proof.
+    induction al as [|a tl IH]; cbn; intros kv H; [discriminate|].
+    destruct (keqb k (fst a)) eqn:E.
+    - inversion H; subst. exists [], tl. split; [reflexivity|]. split; [intros x []|assumption].
+    - destruct (IH kv H) as (a1 & a2 & -> & X & Q). exists (a :: a1), a2. split; [reflexivity|]. split; [|assumption].
+      intros x [<-|Hx]; auto.
+  Qed.
+
+  Lemma al_set_none : forall k v al, al_find k al = None -> al_set k v al = al ++ [(k, v)].
+  Proof.
+    intros k v. induction al as [|[k0 v0] tl IH]; cbn; intros H; [reflexivity|].
+    destruct (keqb k k0); [discriminate|]. rewrite IH by assumption. reflexivity.
+  Qed.
+
+  Lemma al_set_split : forall k v a1 kv a2, (forall x, In x a1 -> keqb k (fst x) = false) -> keqb k (fst kv) = true ->
+    al_set k v (a1 ++ kv :: a2) = a1 ++ (fst kv, v) :: a2.
+  Proof.
+    intros k v. induction a1 as [|[k0 v0] a1 IH]; intros kv a2 X Q; cbn [app].
+    - destruct kv as [k1 v1]. cbn in *. rewrite Q. reflexivity.
+    - pose proof (X (k0, v0) (or_introl eq_refl)) as E0. cbn in E0. cbn. rewrite E0. f_equal. apply IH; [|assumption]. intros x Hx. apply X. right; assumption.
+  Qed.
+
+  Lemma al_remove_none : forall k al, al_find k al = None -> al_remove k al = al.
+  Proof.
+    intros k. induction al as [|[k0 v0] tl IH]; cbn; intros H; [reflexivity|].
+    destruct (keqb k k0); [discriminate|]. rewrite IH by assumption. reflexivity.
+  Qed.
+
+  Lemma al_remove_split : forall k a1 kv a2, (forall x, In x a1 -> keqb k (fst x) = false) -> keqb k (fst kv) = true ->
+    al_remove k (a1 ++ kv :: a2) = a1 ++ a2.
+  Proof.
+    intros k. induction a1 as [|[k0 v0] a1 IH]; intros kv a2 X Q; cbn [app].
+    - destruct kv as [k1 v1]. cbn in *. rewrite Q. reflexivity.
+    - pose proof (X (k0, v0) (or_introl eq_refl)) as E0. cbn in E0. cbn. rewrite E0. f_equal. apply IH; [|assumption]. intros x Hx. apply X. right; assumption.
+  Qed.
+
+  Lemma al_set_perm : forall k v a b, keys_nodup a -> Permutation a b -> Permutation (al_set k v a) (al_set k v b).
+  Proof.
+    intros k v a b ND P. pose proof (al_find_perm a b k ND P) as E.
+    destruct (al_find k a) as [kv|] eqn:Ea.
+    - destruct (al_find_split k a kv Ea) as (a1 & a2 & -> & Xa & Q).
+      symmetry in E. destruct (al_find_split k b kv E) as (b1 & b2 & -> & Xb & _).
+      rewrite !al_set_split by assumption. apply Permutation_elt. eapply Permutation_app_inv; eauto.
+    - symmetry in E. rewrite !al_set_none by assumption. apply Permutation_app_tail. assumption.
+  Qed.
+
+  Lemma al_remove_perm : forall k a b, keys_nodup a -> Permutation a b -> Permutation (al_remove k a) (al_remove k b).
+  Proof.
+    intros k a b ND P. pose proof (al_find_perm a b k ND P) as E.
+    destruct (al_find k a) as [kv|] eqn:Ea.
+    - destruct (al_find_split k a kv Ea) as (a1 & a2 & -> & Xa & Q).
+      symmetry in E. destruct (al_find_split k b kv E) as (b1 & b2 & -> & Xb & _).
+      rewrite !al_remove_split by assumption. eapply Permutation_app_inv; eauto.
+    - symmetry in E. rewrite !al_remove_none by assumption. assumption.
+  Qed.
+
+  Lemma filter_perm : forall (q : K * V -> bool) a b, Permutation a b -> Permutation (filter q a) (filter q b).
+  Proof.
+    induction 1; cbn; auto.
+    - destruct (q x); auto.
+    - destruct (q x), (q y); auto. apply perm_swap.
+    - eapply Permutation_trans; eauto.
+  Qed.
+
+  Lemma mapvals_perm : forall f a b, Permutation a b -> Permutation (mapvals f a) (mapvals f b).
+  Proof. intros. unfold mapvals. apply Permutation_map. assumption. Qed.
+
+  Lemma al_get_perm : forall a b k, keys_nodup a -> Permutation a b -> al_get k a = al_get k b.
+  Proof. intros. rewrite !al_get_find. rewrite (al_find_perm a b k); auto. Qed.
 End AL.
